@@ -8,11 +8,16 @@ Require Export Gen.ConstsOrdered.
 Definition odiff (t s: list Z) := Ordered.hirschberg Z.eqb LEVENSHTEIN_CUTOFF DELETE_COST REPLACE_COST INSERT_COST t s 0%Z.
 Definition oapply (d: list (@Ordered.change Z)) (s: list Z) : list Z := match Ordered.apply_script s d with Some r => r | None => s end.
 Definition zid (m: list (Z * nat)) := m.
-Definition udiff (p c: list Z) : option (@UnordArr.udiff Z) := match UnordArr.hashcmp Z.eqb zid p c with Some o => o | None => None end.
-Definition uapply (base: list Z) (d: @UnordArr.udiff Z) := UnordArr.apply Z.eqb zid base d.
+(* generalised over the hash iteration orders (what the rustc_hash feature changes); the executed instance uses the identity *)
+Definition udiff_g (uio: list (Z * nat) -> list (Z * nat)) (p c: list Z) : option (@UnordArr.udiff Z) := match UnordArr.hashcmp Z.eqb uio p c with Some o => o | None => None end.
+Definition uapply_g (uio: list (Z * nat) -> list (Z * nat)) (base: list Z) (d: @UnordArr.udiff Z) := UnordArr.apply Z.eqb uio base d.
+Definition udiff := udiff_g zid.
+Definition uapply := uapply_g zid.
 Definition mid (m: list (Z * (Z * nat))) := m.
-Definition mdiff (ko: bool) (p c: list (Z * Z)) : option (@MapFlat.mdiff Z Z) := match MapFlat.hashcmp Z.eqb Z.eqb mid ko p c with Some o => o | None => None end.
-Definition mapply (p: list (Z * Z)) (d: @MapFlat.mdiff Z Z) : list (Z * Z) := canon (MapFlat.apply Z.eqb mid p d).   (* .collect() into the map type *)
+Definition mdiff_g (mio: list (Z * (Z * nat)) -> list (Z * (Z * nat))) (ko: bool) (p c: list (Z * Z)) : option (@MapFlat.mdiff Z Z) := match MapFlat.hashcmp Z.eqb Z.eqb mio ko p c with Some o => o | None => None end.
+Definition mapply_g (mio: list (Z * (Z * nat)) -> list (Z * (Z * nat))) (p: list (Z * Z)) (d: @MapFlat.mdiff Z Z) : list (Z * Z) := canon (MapFlat.apply Z.eqb mio p d).   (* .collect() into the map type *)
+Definition mdiff := mdiff_g mid.
+Definition mapply := mapply_g mid.
 Definition rid (m: list (Z * value)) := m.            (* hash order of recursive maps for execution; the theorems quantify over it *)
 
 Notation entry_t := (DModel3.entry (list (@Ordered.change Z)) (@UnordArr.udiff Z) (@MapFlat.mdiff Z Z)).
